@@ -82,6 +82,11 @@ def shards(tier, seed):
             for k in range(8):
                 out.append(('signed2', (si, k), vi))
     out.append(('swap', None, None))
+    # plain values in which a backslash is followed by digits (they look like the octal escapes of the cookie quoting)
+    for seqn in ('\\101', '\\073', '\\377', '\\400', '\\08', '\\1', '\\0012'):
+        out.append(('plainx', seqn, 2))
+    # signed values that compare equal although they are different values (1 / True / 1.0, 0.0 / -0.0, tuples of them), one after the other
+    out.append(('equal', None, None))
     # seed extension: one more character in plain values (all strings <= 2 containing it)
     out.append(('plainx', ['é', '日', '\t', '%', '~', '\x7f', '😀', '|'][seed % 8], 2))
     return out
@@ -186,6 +191,25 @@ def cookie_pair(set_cookie):
     return ''.join(out)
 
 
+EQUAL_VALUES = [1, True, 1.0, 0, False, 0.0, -0.0, (3, 4), (3.0, 4.0), (True, 0), (1, False), 'text', ('text',), frozenset([1]), frozenset([True])]
+
+
+def equal_case(secret, v1, v2):
+    """fresh import; one application signs v1 then v2 (equal, yet another value) under one name and secret; each must read back as itself"""
+    om = sut.load(fresh=True)
+    ch = sut.sub('common_helpers')
+    ch.pickle = PickleProxy()
+    for k, v in enumerate((v1, v2)):
+        pair, err = emit_cookie(om, 'n', v, secret)
+        if err:
+            return f'signed {v!r}: {err}'
+        got = read_wsgi(om, pair, 'n', secret)
+        if repr(got) != repr(v):
+            return (f'one process signs the cookie n={v1!r} and then n={v2!r} (secret {secret!r}); the {"first" if k == 0 else "second"} one, sent back as {pair!r}, '
+                    f'reads {got!r} instead of {v!r}')
+    return None
+
+
 def read_wsgi(om, pair, name, secret):
     app = om.Ombott()
     seen = {}
@@ -284,6 +308,23 @@ def work(spec):
                                            f'{pair!r}: reads {v2!r}; header deleted after a read: reads {v3!r}', sig='plain:stale-after-header-change')
                 if got == exp and v != '':
                     prev_plain = (name, v, pair)
+        elif kind == 'equal':
+            for secret in SECRETS[:2]:
+                for v1, v2 in itertools.permutations(EQUAL_VALUES, 2):
+                    if v1 != v2:
+                        continue
+                    case = {'kind': 'equal', 'values': [repr(v1), repr(v2)], 'secret': secret, 'fresh': True}
+                    core.track(res, case)
+                    bad = equal_case(secret, v1, v2)
+                    res['states'] += 1
+                    res['transitions'] += 4
+                    c['signed_roundtrips'] += 2
+                    c['equal_value_pairs'] += 1
+                    res['nontrivial'] += 1
+                    res['outcomes'].add('equal-valued pair ' + ('ok' if bad is None else 'DIFF'))
+                    if bad:
+                        core.add_violation(res, case, bad, sig='signed:equal-values')
+            sut.load(fresh=True)
         elif kind == 'signed2':
             _, (si, k), vi = spec
             secret, value = SECRETS[si], SIGNED[vi]
@@ -514,6 +555,12 @@ def replay(case):
                 return None
             return (f'response.set_cookie({case["name"]!r}, {case["value"]!r}){" followed by redirect()" if case.get("redirect") is True else (" on a prepared HTTPResponse object that is " + ("raised" if case.get("redirect") == "reused-raise" else "returned") + " for two requests (second answer)" if case.get("redirect") in ("reused", "reused-raise") else (" after the same name was set to another value and deleted on the same response" if case.get("redirect") == "twice" else (" on a response with status " + str(case.get("redirect"))[6:] if str(case.get("redirect")).startswith("status") else "")))} emits {pair!r}; sent back as the Cookie header, '
                     f'request.get_cookie reads {got!r}')
+        if case['kind'] == 'equal':
+            vals = {repr(v): v for v in EQUAL_VALUES}
+            try:
+                return equal_case(case['secret'], vals[case['values'][0]], vals[case['values'][1]])
+            finally:
+                sut.load(fresh=True)
         if case['kind'] == 'swap':
             if isinstance(case['secret'], dict):
                 case = dict(case, secret=bytes(case['secret']['bytes']))
